@@ -233,14 +233,25 @@ package_info ext =
   type Box<T>
   type Pair<K, V>
 
-type R0 = {X: int}
+@USERTYPES@
+package_info _ =
+  type Wrapped
+`
+
+const userTypes = `type R0 = {X: int}
 type U0 =
   | UA
   | UB of int
 type G<T> = {V: T}
+`
 
-package_info _ =
-  type Wrapped
+// the two non-generic user types as later members of an and-group (forward references from RecT / UniT);
+// a forward reference cannot carry type arguments (observed: "non expected token"; and-groups are not in the
+// documents, fc's own sources are the only guide), so G<T> stays declared in front
+const userTypesAnd = `and R0 = {X: int}
+and U0 =
+  | UA
+  | UB of int
 `
 
 var positions = []string{"param", "field", "payload", "pkginfo", "typearg"}
@@ -250,7 +261,13 @@ var positions = []string{"param", "field", "payload", "pkginfo", "typearg"}
 func render(exprs []Ty, pos map[string]bool) (string, map[string]string) {
 	want := map[string]string{}
 	var sb strings.Builder
-	sb.WriteString(prelude)
+	// pos["fwd"]: RecT / UniT open an and-group whose later members are the user types they mention
+	fwd := pos["fwd"] && (pos["field"] || pos["payload"])
+	if fwd {
+		sb.WriteString(strings.Replace(prelude, "@USERTYPES@", "type G<T> = {V: T}\n", 1))
+	} else {
+		sb.WriteString(strings.Replace(prelude, "@USERTYPES@", userTypes, 1))
+	}
 	if pos["pkginfo"] {
 		for i, t := range exprs {
 			// the expression is an argument inside an arrow chain
@@ -258,21 +275,32 @@ func render(exprs []Ty, pos map[string]bool) (string, map[string]string) {
 		}
 	}
 	sb.WriteString("\n")
+	kw := "type"
 	if pos["field"] {
-		sb.WriteString("type RecT = {\n")
+		sb.WriteString(kw + " RecT = {\n")
 		for i, t := range exprs {
 			fmt.Fprintf(&sb, "  F%d: %s;\n", i, t.src(0))
 			want[fmt.Sprintf("field:%d", i)] = t.goType()
 		}
-		sb.WriteString("}\n\n")
+		sb.WriteString("}\n")
+		if fwd {
+			kw = "and"
+		} else {
+			sb.WriteString("\n")
+		}
 	}
 	if pos["payload"] {
-		sb.WriteString("type UniT =\n")
+		sb.WriteString(kw + " UniT =\n")
 		for i, t := range exprs {
 			fmt.Fprintf(&sb, "  | K%d of %s\n", i, t.src(0))
 			want[fmt.Sprintf("payload:%d", i)] = t.goType()
 		}
-		sb.WriteString("\n")
+		if !fwd {
+			sb.WriteString("\n")
+		}
+	}
+	if fwd {
+		sb.WriteString(userTypesAnd + "\n")
 	}
 	for i, t := range exprs {
 		if pos["param"] {
@@ -514,6 +542,7 @@ func TestTypesExhaustive(t *testing.T) {
 	red2 := enum(2, atomsOf(reducedAtoms), rm)
 	parts := []part{
 		{"<=1 constructor, full atom set, all 5 positions", append(append([]Ty{}, full0...), full1...), allPos()},
+		{"<=1 constructor, full atom set, record-field and payload positions of an and-group that declares the user types it mentions later (forward references)", append(append([]Ty{}, full0...), full1...), map[string]bool{"field": true, "payload": true, "fwd": true}},
 	}
 	if e.Thorough() {
 		parts = append(parts, part{"2 constructors, reduced atom set {int,string,ext.Thing}, all 5 positions", red2, allPos()})
@@ -525,12 +554,18 @@ func TestTypesExhaustive(t *testing.T) {
 	const chunk = 120
 	ci := 0
 	for _, p := range parts {
-		for start := 0; start < len(p.exprs); start += chunk {
+		step := chunk
+		if p.pos["fwd"] {
+			// fc allots 100 placeholders for the forward references of one type statement (a capacity
+			// limit with its own diagnostic): <= 3 user types per expression x 2 positions x 14 = 84
+			step = 14
+		}
+		for start := 0; start < len(p.exprs); start += step {
 			ci++
 			if ci%e.NShards != e.Shard {
 				continue
 			}
-			end := min(start+chunk, len(p.exprs))
+			end := min(start+step, len(p.exprs))
 			runChunk(t, e, "TestTypesExhaustive", p.exprs[start:end], p.pos)
 		}
 		e.Meta("TestTypesExhaustive", map[string]any{"exhaustive": true, "domain": p.name, "expressions": len(p.exprs)})
